@@ -287,13 +287,31 @@ namespace
         }
     };
 
-    void run_script_ops(const std::vector<ScriptOp> &ops, const NodeScheduler &sched, std::optional<Int> &emit)
+    // `k<label>`: wake ANOTHER node of the same graph for the current time (graph.schedule_node from inside an
+    // evaluation) - a node ahead of the scan runs in this cycle, a node the scan has passed does not run again
+    void kick_node(const NodeView &self, std::int64_t label, DateTime now)
+    {
+        GraphView g = self.graph();
+        const std::string want = path_of(g) + std::to_string(static_cast<long long>(label));
+        for (std::size_t i = 0; i < g.node_count(); ++i)
+        {
+            if (lbl_of(g.node_at(i)) == want)
+            {
+                self.graph_value()->schedule_node(i, now);
+                return;
+            }
+        }
+    }
+
+    void run_script_ops(const std::vector<ScriptOp> &ops, const NodeScheduler &sched, std::optional<Int> &emit,
+                        const NodeView *self = nullptr)
     {
         for (const auto &o : ops)
         {
             std::optional<std::string> tag = o.tag.empty() ? std::nullopt : std::optional<std::string>{o.tag};
             switch (o.op)
             {
+                case 'k': if (self != nullptr) { kick_node(*self, o.n, sched.now()); } break;
                 case 's': sched.schedule(TimeDelta{o.n}, tag); break;
                 case 'S': sched.schedule(dt(o.n), tag); break;
                 case 'u': sched.un_schedule(o.tag); break;
@@ -339,7 +357,7 @@ namespace
             k.set(static_cast<Int>(i + 1));     // the script step is consumed even if it throws
             try
             {
-                if (i < sc.size()) { run_script_ops(sc[i], sched, emit); }
+                if (i < sc.size()) { run_script_ops(sc[i], sched, emit, &node); }
             }
             catch (...)
             {
@@ -387,7 +405,7 @@ namespace
             k.set(static_cast<Int>(i + 1));     // the script step is consumed even if it throws
             try
             {
-                if (i < sc.size()) { run_script_ops(sc[i], sched, emit); }
+                if (i < sc.size()) { run_script_ops(sc[i], sched, emit, &node); }
             }
             catch (...)
             {
@@ -444,7 +462,7 @@ namespace
             g_nk[me] = static_cast<int>(i + 1);
             try
             {
-                if (i < sc.size()) { run_script_ops(sc[i], sched, emit); }
+                if (i < sc.size()) { run_script_ops(sc[i], sched, emit, &view); }
             }
             catch (...)
             {
